@@ -225,6 +225,11 @@ def real_pairs(job):
                 t2[key].kcals[a:b] += 0.03 * need
                 pairs.append(dict(kind="more_charge", what="%s[%d:%d]+0.03 need on top of 0.1 need of feed and biofuel everywhere" % (key, a, b),
                                   z0=zb, z1=z_of(c2, t2)))
+        # the charged base scaled across ten million people (no absolute head count may matter)
+        kx = (1.5e7 / c["POP"]) if c["POP"] < 1e7 else (0.5e7 / c["POP"])
+        for k in (kx, 2.0):
+            c2, t2 = scaled(cb, tb, k)
+            pairs.append(dict(kind="scale", what="x%.4g on top of 0.1 need of feed and biofuel everywhere" % k, z0=zb, z1=z_of(c2, t2)))
     # a cap's right-hand side alone (the running slaughter total without the monthly series): relaxing it never hurts
     if c["ADD_MEAT"] and c["STORE_FOOD_BETWEEN_YEARS"]:
         for m in sorted(set(months + [N - 1])):
